@@ -1,0 +1,14 @@
+//go:build verif
+
+package controllerv1
+
+// Aliases of unexported identifiers for the verification harness (property C05): a route built
+// from the real middleware, doParse and doPush around a scripted parser.
+// No behaviour; compiled only with -tags verif.
+
+var (
+	VerifC05WithSimpleParser       = withSimpleParser
+	VerifC05WithTracesService      = withTracesService
+	VerifC05WithTSAndSampleService = withTSAndSampleService
+	VerifC05WithOkStatusAndBody    = withOkStatusAndBody
+)
